@@ -41,6 +41,16 @@ pub fn generate(a: &Args) {
             decode_event(&mut out, name, &rows, n, &llrs, limit, cls % 13);
         }
     }
+    // runaway messages: repeated checks let two variables reinforce each other without bound, so float messages overflow to
+    // infinity (f32 within ~50 layered iterations, f64 within a few thousand) and beyond (inf - inf); a decoder must still RETURN
+    for name in NAMES.iter() {
+        let rows: Vec<Vec<usize>> = vec![vec![0, 5], vec![0, 5], vec![0, 5], vec![0, 5], vec![1, 2, 3, 8, 9]];
+        let llrs = [-0.6875, 0.5625, -0.5, -0.875, 0.3125, -2.0625, 1.8125, -1.0, 1.25, -0.125];
+        for limit in [50usize, 400, 3000] { decode_event(&mut out, name, &rows, 10, &llrs, limit, 13); }
+        let rows2: Vec<Vec<usize>> = vec![vec![0, 1], vec![0, 1], vec![0, 1], vec![1, 2], vec![1, 2], vec![2, 3]];
+        let llrs2 = [3.5, 2.25, -0.5, 1.0];
+        for limit in [60usize, 3000] { decode_event(&mut out, name, &rows2, 4, &llrs2, limit, 13); }
+    }
     if is_thorough(a) {
         // real codes: DVB-S2 short 1/2 (16200 x 7200 checks... n = 16200) and CCSDS AR4JA 1/2 k=1024; all-zero codeword + Gaussian noise
         use ldpc_toolbox::codes::ccsds::{AR4JACode, AR4JAInfoSize, AR4JARate};
